@@ -815,10 +815,22 @@ SKIP_RECORD_PARSE:
                         return MATRIXSSL_SUCCESS;
                     }
                     psAssert(*c == SSL_RECORD_TYPE_HANDSHAKE); /* Finished */
+                    if (end - c < DTLS_HEADER_ADD_LEN + SSL3_HEADER_LEN)
+                    {
+                        /* Not even a record header: drop the datagram */
+                        *buf = end;
+                        return MATRIXSSL_SUCCESS;
+                    }
                     c += 11;                                   /* Skip type, version, epoch to get to length */
                     /* borrow rc since we will be leaving here anyway */
                     rc = *c << 8; c++;
                     rc += *c; c++;
+                    if (end - c < rc)
+                    {
+                        /* Announces more than was received: drop it */
+                        *buf = end;
+                        return MATRIXSSL_SUCCESS;
+                    }
                     c += rc; /* Skip FINISHED message we've already accepted */
                     *buf = c;
                 }
